@@ -44,6 +44,11 @@ def cases(tier, seed):
             d = files.wspec_desc(rng, (nI, nX, rng.randint(5, 40)), rate, bs, version=[0, 2, 9], holes=holes,
                                  il=[rng.choice([1, 5, 100]), rng.choice([1, 2])], narr=rng.choice([2, 3]))
             out.append({'id': 'wi:%s:%s:%d' % (rate, 'x'.join(map(str, bs)), rep), 'file': d, 'nops': 60, 'cost': 1})
+        # files with an axis of length 1 (what a one-line crop produces)
+        for j, shape in enumerate([(1, 9, 20), (7, 1, 20), (6, 5, 1), (1, 1, 9), (1, 6, 1)]):
+            rate, bs = [(4, (4, 4, 512)), (8, (8, 8, 64)), (2, (64, 64, 4))][(j + rep) % 3]
+            d = files.wspec_desc(rng, shape, rate, bs, version=[0, 2, 9], narr=2)
+            out.append({'id': 'w1:%s:%s:%d' % ('x'.join(map(str, shape)), 'x'.join(map(str, bs)), rep), 'file': d, 'nops': 40, 'cost': 1})
         # repository writer files too (any file is a legitimate input of this property)
         for rate, bs in [(4, (4, 4, -1)), (2, (64, 64, 4)), (8, (8, 8, -1))]:
             rbs = [b if b > 0 else int(32768 // (rate * 16 if bs[0] == 4 else rate * 64)) for b in bs]
@@ -118,11 +123,11 @@ def run_case(case, ctx):
             for z in reads.residue_points(nZ, sp.bs[2], rng, 2):
                 cops.append(('read_zslice_coord', (float(r.zslices[z]),)))
                 exp[cops[-1]] = V[:, :, z]
-            if gm is None:
+            if gm is None and nZ > 1:       # (an exclusive stop COORDINATE needs a sample interval: undefined for a single-sample axis)
                 for _ in range(6):
                     t = rng.randrange(nI * nX)
                     lo, hi = reads.rand_range(nZ, sp.bs[2], rng)
-                    zhi = float(r.zslices[hi]) if hi < nZ else float(r.zslices[-1] + (r.zslices[1] - r.zslices[0]))
+                    zhi = float(r.zslices[hi]) if hi < nZ else float(r.zslices[-1] + (r.zslices[1] - r.zslices[0] if nZ > 1 else 1.0))
                     cops.append(('get_trace_by_coord', (t, float(r.zslices[lo]), zhi)))
                     exp[cops[-1]] = V[t // nX, t % nX, lo:hi]
                 cops.append(('get_trace_by_coord', (0,)))
